@@ -320,6 +320,16 @@ def rule_S_LOAD_DUMP(ctx, repo):
                     ctx.fail('S-DUMP', fi.qual, 'per-key dump %s' % render(d)[:60],
                              'cache.dump(k...) does not write {arg: self[arg]} for the same argument, guarded by "arg in self"',
                              '%s:%d' % (m.rel, e.line), render_path(o))
+            # conversely: every named key that is resident is written (no "already archived" shortcut decided from cache-side bookkeeping)
+            for i, e in enumerate(evs):
+                if e.kind == 'SHAS' and e.args[1] == C(True) and e.args[0][0] == 'iter' and e.args[0][1] == ARGS:
+                    k = e.args[0]
+                    wrote = any(x.kind == 'AUPDATE' and len(x.args) >= 2 and x.args[1][0] == 'dict' and x.args[1][1] and x.args[1][1][0][0] == k for x in evs[i:])
+                    if not wrote:
+                        ok = False
+                        ctx.fail('S-DUMP', fi.qual, 'resident key not written',
+                                 'cache.dump(k...) has a path on which a named key is resident ("arg in self") but is not written to the archive: an entry the '
+                                 'decorators dump before evicting it can leave memory without reaching the archive', '%s:%d' % (m.rel, e.line), render_path(o))
             ctx.ob('S-DUMP', None, ok)
     if n_bulk < 1 or n_key < 1:
         raise AnalysisError('cache.dump: bulk/per-key transfer sites not recognised (%d/%d)' % (n_bulk, n_key))
@@ -554,6 +564,36 @@ def rule_S_RED(ctx, repo):
                         if isinstance(t, ast.Attribute) and isinstance(t.value, ast.Name) and t.value.id in ('self', 'k'):
                             base_attrs.add(t.attr)
     for mod, c, attrs in sites:
+        if '__setstate__' in c.methods:
+            # a custom restore: what was pickled is put back as it is; a default may stand in only for a key that is absent - never for a value
+            # that is merely falsy (an archive is a dict: empty means falsy, and an empty archive is still the archive the cache is bound to)
+            from .paths import Engine, RETURN as _RET
+            from .rules_wrappers import PlainModel
+            fn = c.methods['__setstate__']
+            pa = [x.arg for x in fn.node.args.args]
+            if len(pa) >= 2:
+                stp = ('param', pa[1])
+                eng = Engine(PlainModel(mod), unroll=1)
+                for o in eng.run_function(fn.node, {}, params={pa[0]: SELF}):
+                    if o.kind != _RET:
+                        continue
+                    for e in o.st.events:
+                        if e.kind != 'SELFSET' or e.args[0] != SELF or not is_const(e.args[1]):
+                            continue
+                        if attrs is not None and e.args[1][1] not in attrs:
+                            continue
+                        v = e.args[2]
+                        if contains_term(v, lambda t: t == stp):
+                            continue
+                        falsy = [t for t, b in o.st.facts.get('truth', {}).items() if b is False and contains_term(t, lambda x: x == stp)
+                                 and t[0] != 'cmp' and not (t[0] == 'call' and t[1][0] == 'attr' and t[1][2] == '__contains__')]
+                        ok = not falsy
+                        ctx.ob('S-RED', '%s.__setstate__ %s' % (c.name, e.args[1][1]), ok)
+                        if not ok:
+                            ctx.fail('S-RED', '%s.__setstate__' % c.qual, 'restored %s replaced when falsy' % e.args[1][1],
+                                     '%s.__setstate__ replaces the pickled %s by %s whenever the pickled value is falsy (%s): an archive that happens to be empty at '
+                                     'pickling time is falsy, so the restored cache is bound to a different archive than the original' % (
+                                         c.name, e.args[1][1], render(v)[:40], render(falsy[0])[:60]), fn.where, render_path(o))
         custom = [n for n in ('__reduce__', '__reduce_ex__', '__getstate__') if n in c.methods]
         if not custom:
             ctx.ob('S-RED', '%s default pickling (instance __dict__ travels whole)' % c.name)
